@@ -476,10 +476,16 @@ func (cm *CMap) parseBfRangeArray(line string) {
 
 	// Extract array content
 	arrayStart := strings.Index(line, "[")
-	arrayEnd := strings.Index(line, "]")
-	if arrayStart == -1 || arrayEnd == -1 {
+	if arrayStart == -1 {
 		return
 	}
+	// The closing bracket is looked for after the opening one: a stray ']' earlier on the
+	// line would otherwise bound the slice below by an end before its start.
+	arrayEnd := strings.Index(line[arrayStart:], "]")
+	if arrayEnd == -1 {
+		return
+	}
+	arrayEnd += arrayStart
 
 	arrayContent := line[arrayStart+1 : arrayEnd]
 
